@@ -27,6 +27,7 @@ RULE = (
 )
 RULE += (" Further backends of the same class may use a second pipeline definition with another variable table; probes include a placeholder that only that table defines (fresh result: error).")
 RULE += (" Every rule is loaded with its own source location; rules and probes include a condition the grammar rejects and one naming a missing detection, so the compared error text carries the location of the rule it belongs to.")
+RULE += (" A quarter of the probes is followed by a correlation rule over the probe whose group-by fields are spelled like targets of the field mapping, and the pipeline has an item conditioned on field-name tracking for correlation rules.")
 ASSUMPTIONS = [
     "results are compared as strings (same code, same configuration)",
     "the internal name of an added condition is random; it never appears in the compared output",
@@ -45,6 +46,9 @@ PIPELINE = {
         {"id": "nest", "type": "nest", "items": [{"id": "inner", "type": "field_name_suffix", "suffix": "_n",
                                                   "field_name_conditions": [{"type": "include_fields", "fields": ["h"]}]}]},
         {"id": "ph", "type": "value_placeholders", "include": ["known", "other"]},
+        # applies to field names that the mapping item did not produce (field-name tracking of the current rule only)
+        {"id": "untracked", "type": "field_name_prefix", "prefix": "u.", "field_name_conditions": [{"type": "processing_item_applied", "processing_item_id": "map"}],
+         "field_name_cond_not": True, "rule_conditions": [{"type": "is_sigma_correlation_rule"}]},
     ],
 }
 # a second pipeline definition for further backends of the same class: other variable table
@@ -89,7 +93,8 @@ def _mk_class(cfg):
     bp = ProcessingPipeline.from_dict({"transformations": [{"id": "bsuf", "type": "field_name_suffix", "suffix": "_B",
                                                             "field_name_conditions": [{"type": "include_fields", "fields": ["g", "mapped_g"]}]},
                                                            {"id": "bst", "type": "set_state", "key": "bstate", "val": "on"}]})
-    return make_backend_class(cfg, {"backend_processing_pipeline": bp,
+    from vf.target.correlation import correlation_attrs
+    return make_backend_class(cfg, {**correlation_attrs({}), "backend_processing_pipeline": bp,
                                     "output_format_processing_pipeline": defaultdict(ProcessingPipeline),
                                     "query_expression": "{query} ##fields={rule.fields} ##idx={state[index]} ##b={state[bstate]}",
                                     "state_defaults": {"index": "none", "bstate": "off"}})
@@ -119,9 +124,18 @@ def _probe(backend, doc, via: str):
         from sigma.exceptions import SigmaRuleLocation
         src = SigmaRuleLocation("/rules/probe.yml")  # every rule has its own source location: errors name it
         if via == "convert":
-            res = backend.convert(SigmaCollection.from_dicts([copy.deepcopy(doc)], source=src))
+            docs_ = [copy.deepcopy(doc)]
+            if doc.get("_with_correlation"):
+                docs_[0].pop("_with_correlation")
+                docs_[0]["name"] = "probe_rule"
+                # group-by fields spelled like targets of the pipeline's field mapping
+                docs_.append({"title": "probe_corr", "correlation": {"type": "event_count", "rules": ["probe_rule"], "timespan": "5m",
+                                                                     "group-by": ["mapped_g", "m1", "h"], "condition": {"gte": 2}}})
+            res = backend.convert(SigmaCollection.from_dicts(docs_, source=src))
         else:
-            res = backend.convert_rule(SigmaRule.from_dict(copy.deepcopy(doc), source=src))
+            d_ = copy.deepcopy(doc)
+            d_.pop("_with_correlation", None)
+            res = backend.convert_rule(SigmaRule.from_dict(d_, source=src))
         return ("ok", [norm(q) for q in res], [(r.title, type(e).__name__, norm(e)) for r, e in backend.errors])
     except Exception as e:  # noqa
         return ("raised", type(e).__name__, norm(e)[:200])
@@ -225,6 +239,8 @@ def cases(draw):
             ops.append([k, draw(st.integers(0, 3)), draw(st.integers(0, 3))])
         else:
             ops.append([k, draw(st.integers(0, 3)), draw(st.lists(st.integers(0, 3), min_size=1, max_size=3))])
+    if draw(st.integers(0, 3)) == 0:
+        probe["_with_correlation"] = True
     return {"not_eq": not_eq, "docs": docs, "probe": probe, "ops": ops, "collect": draw(st.booleans()),
             "probe_backend": draw(st.integers(0, 3)), "probe_via": draw(st.sampled_from(["convert", "convert", "convert_rule"]))}
 
